@@ -3,7 +3,7 @@
    last-chunk, and a trailer section -- followed by arbitrary further octets. *)
 From Coq Require Import ZArith.
 From Httoop Require Import Model.Parser Model.Composer Proofs.SplitP Proofs.HeadersP Proofs.ParserEsc Proofs.ParserFuel
-  Proofs.ParserFraming Proofs.ParserFrag Proofs.ParserWf Proofs.DecimalP Proofs.Http1ReaderP Proofs.ComposerNum Proofs.RoundTrip.
+  Proofs.ParserFraming Proofs.ParserFrag Proofs.ParserSim Proofs.ParserBridge Proofs.ParserWf Proofs.DecimalP Proofs.Http1ReaderP Proofs.ComposerNum Proofs.RoundTrip.
 Local Open Scope N_scope.
 
 Section Chunked.
@@ -347,6 +347,30 @@ Proof.
   - cbn [map concat_bytes app]. destruct (parse L PC k init tail) as [[s2 m2] e]. reflexivity.
   - inversion H as [|m' ms' Hm Hms]; subst. cbn [map concat_bytes]. rewrite <- app_assoc.
     rewrite (w_first m _ Hm), (IH Hms). destruct (parse L PC k init tail) as [[s2 m2] e]. reflexivity.
+Qed.
+
+(* the same under ANY fragmentation of the octets into parse() calls: the reference machine ... *)
+Theorem pipeline_fragmented ms frags : Forall w_ok ms -> concat_bytes frags = concat_bytes (map w_wire ms) ->
+  run_keep L PC k init frags = (init, map w_delivered ms, None).
+Proof.
+  intros H E.
+  rewrite (run_keep_is_one_call reference PC k eq_refl eq_refl eq_refl frags init); [| apply init_quiescent | exact I | exact I].
+  rewrite E. apply pipeline_delivered, H.
+Qed.
+
+(* ... and the machine as implemented ([real]: LF fallback, 411 peek, eager header lines), for every fragmentation on which
+   it does not take one of its two buffer-dependent shortcuts (the computable [quiet_run]: findings D13 / D14) *)
+Theorem pipeline_fragmented_real ms frags : Forall w_ok ms -> concat_bytes frags = concat_bytes (map w_wire ms) ->
+  quiet_run PC k init frags = true ->
+  run_keep real PC k init frags = (init, map w_delivered ms, None).
+Proof.
+  intros H E Q. rewrite (run_real PC k frags init Q).
+  assert (R0 : Rst init init) by reflexivity.
+  pose proof (run_sim PC k frags init init R0 I I) as S. rewrite (pipeline_fragmented ms frags H E) in S.
+  destruct S as [(se' & Ee & R) | (_ & D)].
+  - rewrite Ee. f_equal. f_equal. unfold Rst in R. change (cur init) with (@None inflight) in R.
+    destruct se' as [b c]. cbn [cur buf] in R. destruct c as [i|]; [contradiction|]. cbn in R. subst b. reflexivity.
+  - exfalso. destruct D as (il & HS' & x' & Cu & _). discriminate.
 Qed.
 
 End Pipeline.
